@@ -4,16 +4,16 @@
 # own tests still pass with it, the demo fails with it and passes without it. Then stores it under
 # /verif/seeded/<seed-id>/ with meta.json.
 set -u
-WT="$1"; M="$2"; ID="$3"; PROP="$4"; NEEDS="$5"
+WT="$1"; M="$2"; ID="$3"; PROP="$4"; NEEDS="$5"; FEAT="${FEAT:-}"
 export CARGO_NET_OFFLINE=true CARGO_TARGET_DIR="$WT/target"
 cd "$WT" || exit 2
 git checkout -q -- . ; rm -rf tests/vp_demo.rs
 BASE=$(git rev-parse --short HEAD)
 mkdir -p tests
 cp "out/${M}_demo.rs" tests/vp_demo.rs
-cargo test --offline --test vp_demo >/tmp/cs_$$.clean 2>&1; CLEAN=$?
+cargo test --offline $FEAT --test vp_demo >/tmp/cs_$$.clean 2>&1; CLEAN=$?
 git apply "out/$M.diff" || { echo "patch does not apply"; exit 2; }
-cargo test --offline --test vp_demo >/tmp/cs_$$.mut 2>&1; MUT=$?
+cargo test --offline $FEAT --test vp_demo >/tmp/cs_$$.mut 2>&1; MUT=$?
 # the repository's own suite with the change (lib tests; flaky baseline tests get up to 3 tries)
 SUITE=1
 for try in 1 2 3; do
